@@ -142,9 +142,11 @@ def make_variator(kind, vtype):
 
 
 def build(name, vtype="real", pop=4, off=None, seed=None, constrained=False, nobjs=None, variator=None,
-          window=None, generator=None, inject=0, big=False, capacity=6, divisions=4, **extra):
+          window=None, generator=None, inject=0, big=False, capacity=6, divisions=4, wrapper=None, **extra):
     """Construct algorithm `name`.  `seed` (if given) seeds the global `random` first.
-    inject=k: the initial population starts with k already-evaluated solutions (InjectedPopulation)."""
+    inject=k: the initial population starts with k already-evaluated solutions (InjectedPopulation).
+    wrapper="atc"|"epc" (NSGAII / EpsNSGAII only): the DEPRECATED wrapper form platypus.deprecated.AdaptiveTimeContinuation /
+    EpsilonProgressContinuation around the algorithm (inner eps-NSGA-II without its own restart extension); `window` as for EpsNSGAII."""
     if seed is not None:
         random.seed(seed)
     if name not in ALGORITHMS:
@@ -240,6 +242,22 @@ def build(name, vtype="real", pop=4, off=None, seed=None, constrained=False, nob
         alg = CMAES(problem, offspring_size=off, **kw)
         info["kids"] = 1
         info["pop"] = off
+    if wrapper:
+        import warnings
+        from platypus import EpsilonBoxArchive
+        from platypus import deprecated as D
+        if name not in ("NSGAII", "EpsNSGAII"):
+            raise ValueError("wrappers need an algorithm with population and archive")
+        if name == "EpsNSGAII":
+            alg.remove_extension(AdaptiveTimeContinuationExtension)
+        elif alg.archive is None:
+            alg.archive = EpsilonBoxArchive(eps)
+        w = window if isinstance(window, (list, tuple)) else [window or 2, 2 * (window or 2), 2, 12]
+        cls = {"atc": D.AdaptiveTimeContinuation, "epc": D.EpsilonProgressContinuation}[wrapper]
+        with warnings.catch_warnings():
+            warnings.simplefilter("ignore", DeprecationWarning)
+            alg = cls(alg, window_size=w[0], max_window_size=w[1], min_population_size=w[2], max_population_size=w[3])
+        info["wrapper"] = wrapper
     if inject and name != "CMAES":
         alg.verif_injected = injected_originals     # the evaluated solutions handed to InjectedPopulation (originals, not its copies)
     return alg, info
